@@ -1,4 +1,5 @@
 import ScionVerif.Model.Layout
+import ScionVerif.Generated.Setters
 /-!
 # Access descriptors of the views
 
@@ -13,6 +14,7 @@ Mirrors `proto/header/view.rs`, `dataplane_path/standard/view.rs`, `onehop/view.
 -/
 namespace ScionVerif.Access
 open ScionVerif ScionVerif.Layout ScionVerif.Generated.Layout ScionVerif.Generated.AddrType
+open ScionVerif.Generated.Setters (setters mutFns)
 
 /-- a byte interval `[lo, hi)` -/
 abbrev Rng := Nat × Nat
@@ -196,7 +198,53 @@ def protectedRanges : ViewKind → Bytes → List BitRange
 def sizeNeutral (k : ViewKind) (v : Bytes) (r : BitRange) : Prop :=
   r.wf ∧ r.byteHi ≤ v.length ∧ ∀ p ∈ protectedRanges k v, r.disjoint p
 
-/-! ## the safe setters of the crate (`gen_field_write!`, `set_*`, mutable slice accessors) -/
+/-! ## the safe setters of the crate
+
+`Generated/Setters.lean` lists **every** setter of every view type as the translator finds it in the Rust
+source (`gen_field_write!` / `gen_field_read_and_write!` / hand-written `pub fn set_*` = safe,
+`gen_unsafe_field_write!` / `pub unsafe fn set_*` = unsafe) with its resolved bit range, and every other
+`pub [unsafe] fn f(&mut self ..)`.  `safeSetterRanges` is *computed from that table*: a setter that becomes safe
+in the source appears here on the next run and `safe_setters_neutral` has to be re-proved for it. -/
+
+/-- safe setters of fields that `has_required_size` of their own view reads; the crate leaves them safe, no
+accessor depends on the value after construction (`set_version`: only the version check; `set_length`: the view
+keeps its slice length).  They are *excluded* from `safe_setters_preserve_size` and covered by deterministic
+harness probes only. -/
+def exemptSetters : List (String × String) :=
+  [("ScionHeaderView", "set_version"), ("UdpDatagramView", "set_length")]
+
+/-- bit ranges (relative to the start of the view) written by the safe setters of the Rust view type `view`,
+as extracted from the source -/
+def safeSettersOf (view : String) : List BitRange :=
+  (setters.filter (fun s => s.view == view && s.safe && !(exemptSetters.contains (s.view, s.name)))).map (·.range)
+
+/-- Rust type of the typed message view of an SCMP kind -/
+def msgViewName (k : ScmpKindRow) : String := "Scmp" ++ k.name ++ "MessageView"
+
+/-- the `pub fn f(&mut self ..)` (other than field setters) of the view types and where their writes are
+accounted for.  `generated_mut_fns_modelled` (Theorems/C02) checks that the source has no *safe* function of this
+shape outside this list. -/
+def modelledMutFns : List (String × String) :=
+  [ -- sub-views whose setters are part of `safeSetterRanges` of the parent (same bytes, shifted)
+    ("ScionHeaderView", "path_mut"), ("ScionPacketView", "header_mut"), ("ScmpPayloadView", "message_mut"),
+    ("StandardPathView", "curr_info_field_mut"), ("StandardPathView", "info_field_mut"),
+    ("StandardPathView", "curr_hop_field_mut"), ("StandardPathView", "hop_field_mut"),
+    ("StandardPathView", "info_fields_mut"), ("StandardPathView", "hop_fields_mut"),
+    ("OneHopPathView", "info_field_mut"), ("OneHopPathView", "mut_hop_fields"),
+    -- mutable byte slices: listed as the bit range of the whole slice
+    ("ScionRawPacketView", "payload_mut"), ("UdpDatagramView", "payload_mut"),
+    ("ScmpDestinationUnreachableMessageView", "offending_packet_mut"), ("ScmpPacketTooBigMessageView", "offending_packet_mut"),
+    ("ScmpParameterProblemMessageView", "offending_packet_mut"), ("ScmpExternalInterfaceDownMessageView", "offending_packet_mut"),
+    ("ScmpInternalConnectivityDownMessageView", "offending_packet_mut"), ("ScmpEchoRequestMessageView", "data_mut"),
+    ("ScmpEchoReplyMessageView", "data_mut"), ("ScmpUnknownMessageView", "message_specific_data_mut"),
+    -- re-validating conversions: the typed view is re-checked with has_required_size before it is handed out
+    ("ScionRawPacketView", "try_as_udp_mut"), ("ScionRawPacketView", "try_as_scmp_mut"),
+    -- in-place transformations that DO write size-determining bits (segment lengths): not size-neutral writes,
+    -- byte-modelled in C11 / C12; here only `reverse_preserves_size` + the harness mutator sequences
+    ("StandardPathView", "try_reverse"), ("StandardPathView", "advance_ingress"), ("StandardPathView", "advance_egress"),
+    ("StandardPathView", "advance_ingress_with_validator"), ("StandardPathView", "advance_egress_with_validator"),
+    -- one-hop: fixed 32-byte view, no size-determining bit
+    ("OneHopPathView", "set_second_hop"), ("OneHopPathView", "try_reverse") ]
 
 /-- bit ranges written by the *safe* setters of a view with bytes `v`.  Mutable slice accessors
 (`payload_mut`, `offending_packet_mut`, `data_mut`, `Unsupported{buf}`, `set_mac`) are listed as the bit range
@@ -204,29 +252,31 @@ of the whole slice: any write inside it is a write to a sub-range. -/
 def headerSafe (v : Bytes) : List BitRange :=
     let f := commonFields v
     let off := CommonHeader.SIZE_BYTES + addrHdrSize (addrSize f.st) (addrSize f.dt)
-    [CommonHeader.TRAFFIC_CLASS_RNG, CommonHeader.FLOW_ID_RNG, CommonHeader.NEXT_HEADER_RNG,
-     AddressHeader.SRC_ISD_RNG.shift CommonHeader.SIZE_BYTES, AddressHeader.SRC_AS_RNG.shift CommonHeader.SIZE_BYTES,
-     AddressHeader.DST_ISD_RNG.shift CommonHeader.SIZE_BYTES, AddressHeader.DST_AS_RNG.shift CommonHeader.SIZE_BYTES] ++
+    safeSettersOf "ScionHeaderView" ++
     (match pathKind f.pt with
-     | .scion => [StdPathMeta.CURR_INFO_FIELD_RNG.shift off, StdPathMeta.CURR_HOP_FIELD_RNG.shift off,
-                  ⟨(off + StdPathMeta.SIZE_BYTES) * 8, f.hl * 4 * 8⟩]
+     | .scion => (safeSettersOf "StandardPathView").map (·.shift off) ++
+                  [⟨(off + StdPathMeta.SIZE_BYTES) * 8, f.hl * 4 * 8⟩]
      | .oneHop => [⟨off * 8, (off + OneHopPath.SIZE_BYTES) * 8⟩]
      | .other _ => [⟨off * 8, f.hl * 4 * 8⟩]
      | .empty => [])
+
+/-- safe writes through a typed SCMP message view of kind `k` over bytes `v`: its field setters (from the
+source) and, for the variable-length kinds, the data slice -/
+def scmpMsgSafe (k : ScmpKindRow) (v : Bytes) : List BitRange :=
+  safeSettersOf (msgViewName k) ++ (if k.varLen then [⟨k.headerSize * 8, v.length * 8⟩] else [])
 
 def safeSetterRanges : ViewKind → Bytes → List BitRange
   | .header, v => headerSafe v
   | .rawPacket, v => headerSafe v ++ [⟨pktHl v * 8, v.length * 8⟩]
   | .udpPacket, v => headerSafe v
   | .scmpPacket, v => headerSafe v
-  | .stdPath, v =>
-    [StdPathMeta.CURR_INFO_FIELD_RNG, StdPathMeta.CURR_HOP_FIELD_RNG, ⟨StdPathMeta.SIZE_BYTES * 8, v.length * 8⟩]
+  | .stdPath, v => safeSettersOf "StandardPathView" ++ [⟨StdPathMeta.SIZE_BYTES * 8, v.length * 8⟩]
   | .oneHop, _ => [OneHopPath.TOTAL]
-  | .infoField, _ => [InfoField.TOTAL_RNG]
-  | .hopField, _ => [HopField.TOTAL_RNG]
-  | .udp, v => [UdpDatagram.SRC_PORT_RNG, UdpDatagram.DST_PORT_RNG, UdpDatagram.CHECKSUM_RNG,
-                ⟨UdpDatagram.HEADER_SIZE_BYTES * 8, v.length * 8⟩]
-  | .scmp, v => [ScmpMessage.CODE_RNG, ScmpMessage.CHECKSUM_RNG, ⟨32, v.length * 8⟩]
-  | _, _ => []
+  | .infoField, _ => safeSettersOf "InfoFieldView"
+  | .hopField, _ => safeSettersOf "HopFieldView"
+  | .udp, v => safeSettersOf "UdpDatagramView" ++ [⟨UdpDatagram.HEADER_SIZE_BYTES * 8, v.length * 8⟩]
+  | .scmp, v => safeSettersOf "ScmpPayloadView" ++
+      scmpMsgSafe (scmpRow (readBits (v.take scmpMinSize) ScmpMessage.TYPE_RNG)) v
+  | .scmpMsg i, v => scmpMsgSafe (scmpKinds.getD i (scmpRow 256)) v
 
 end ScionVerif.Access
